@@ -17,26 +17,48 @@ META = {
     'id': 'C07',
     'title': 'Configuration of one class never changes the behaviour of another',
     'level': 'proof',
-    'technique': 'Coq proof (frame theorem by simulation between the full run and the run projected on the family, via the '
-                 'cache-free pure outcome) on the hand-written Gallina state model + differential correspondence on generated family pairs',
+    'technique': 'Coq proofs on two hand-written Gallina state models: (1) table model - frame theorem by simulation between the full run and '
+                 'the run projected on the family, via the cache-free pure outcome; (2) Meta-heap model (Meta objects with identity, '
+                 'recursive_classes, loader / dumper classes, every configuration entry point) - frame theorem for ALL histories by a footprint '
+                 'argument in a relational program logic over the state monad, with an explicit separation invariant; + differential '
+                 'correspondence of both models on generated family pairs and direct predicate against a pristine process',
     'design_ref': 'DESIGN.md section 4 C07',
     'theorems': ['C07_frame', 'C07_frame_example', 'C07_refuted_same_qualname', 'C07_refuted_shared_nested',
-                 'C07_refuted_nested_alone_after', 'C07_refuted_subclass_bind'],
+                 'C07_refuted_nested_alone_after', 'C07_refuted_subclass_bind',
+                 'C07_heap_frame', 'C07_fresh_alloc_ok', 'C07_heap_separation_invariant', 'C07_loader_depends_on_own_declaration',
+                 'C07_heap_frame_example', 'C07_shared_meta_not_separated', 'C07_refuted_shared_meta_object', 'C07_memo_alloc_not_ok',
+                 'C07_refuted_heap_same_qualname', 'C07_refuted_shared_nested_recursive_classes'],
     'tables': [],
-    'level_text': ('Frame theorem proved in Coq for ALL class families G and ALL histories with disjoint tables (G closed under '
-                   'nested / base / instance classes, no shared nested class, no shared qualname, no module-level Meta) that avoid the '
-                   'open regions: G\'s outcomes are those of the history with every other operation deleted. The model is faithful to the '
-                   'open defects; F10, F11 and the new F40 are refuted by machine-checked witnesses replayed on the implementation.'),
-    'level_note': ('Trusted: Coq kernel + vm_compute; the hand-written state model; the correspondence harness. The frame theorem is '
-                   'proved through the pure outcome, so it also asks that the history and its projection are safe histories (decidable).'),
-    'rule': ('family pairs (F, G) of 1-3 classes each with random Meta (inner Meta, LoadMeta bindings, cascade), interleaved definitions, '
+    'level_text': ('Two frame theorems proved in Coq. Table model: for ALL class families G and ALL histories with disjoint tables that avoid '
+                   'the open regions, G\'s outcomes are those of the history with every other operation deleted. Meta-heap model (Meta classes '
+                   'as heap objects bound by address and merged in place, LoadMeta / DumpMeta / inner Meta / JSONPyWizard entry points in any '
+                   'order and repetition, recursive_classes with lazily generated nested loaders, LoadMixin / DumpMixin classes with overridden '
+                   'hooks and the create-on-miss loader / dumper tables): for EVERY program text statically separated along G, every '
+                   'ownership-respecting allocation policy and EVERY history (no safe-history hypothesis) the separation invariant holds and G\'s '
+                   'outcomes are those of the projected history; the loader / dumper class stored for a class depends only on its own '
+                   'declaration after every history. Refutations show each hypothesis is needed (a Meta object shared between families - '
+                   'memoised LoadMeta - breaks the frame; same qualname F11; shared nested class F10, also under recursive_classes; F40). '
+                   'Both models are re-validated against the implementation on every run.'),
+    'level_note': ('Trusted: Coq kernel + vm_compute; the two hand-written state models; the correspondence harness. The table-model frame '
+                   'theorem also asks that the history and its projection are safe histories (decidable); the Meta-heap frame theorem does not.'),
+    'rule': ('(a) family pairs (F, G) of 1-3 classes each with random Meta (inner Meta, LoadMeta bindings, cascade), interleaved definitions, '
              'bindings and 2-8 load/dump operations; relations: disjoint / same qualnames in two synthetic modules / shared nested dataclass '
-             '/ F subclasses a G class. G\'s operations are also run alone (projection) in a fresh job. A pair is non-trivial when F has a '
-             'Meta or is exercised before G\'s operation; distinct = distinct history text.'),
+             '/ F subclasses a G class; (b) Meta-heap pairs: shared nested class x every compiled Meta setting x recursive_classes on/off for F '
+             'and for G x order (F / G / nested class first) x entry point; unrelated classes configured by EQUAL settings through LoadMeta / '
+             'DumpMeta / inner Meta / JSONPyWizard / key_case= followed by a second binding to one of them, three orders; LoadMixin / DumpMixin '
+             'dataclasses with overridden and registered hooks nesting a class the other family nests; random pairs with bindings at any time '
+             'and repeated. G\'s operations are also run alone (projection) in a fresh job - for (b) in a pristine PROCESS per history. '
+             'distinct = distinct history text.'),
     'trusted_base': ['model coq/model/StateModel.v: META_INITIALIZER keyed by qualname, _META holding Meta class OBJECTS (aliasing), '
-                     'bind_to(nested, is_default=False) writing the nested class\'s loader / dumper attributes'],
-    'assumptions': ['no module-level Meta subclass (the sanctioned global exception) and no debug mode (process-wide logging state) in the model',
-                    'default engine, int / str / nested-dataclass fields'],
+                     'bind_to(nested, is_default=False) writing the nested class\'s loader / dumper attributes',
+                     'model coq/model/FamModel.v: transcribes bases_meta.py:124-221, 297-352 (bind_to, LoadMeta, DumpMeta), bases.py:40-99 (| and &=), '
+                     'serial_json.py:60-137 (JSONWizard / JSONPyWizard __init_subclass__), class_helper.py:435-460 (initialiser by qualname), '
+                     'loader_selection.py:67-110 and dumpers.py:189-213 (create-on-miss loader / dumper classes), loaders.py:253-327, 545-799 and '
+                     'parsers.py:78-112 (nested entry point, RecursionSafeParser), dumpers.py:263-576; per-class key caches abstracted '
+                     '(the harness uses a non-exact key spelling at most once per class and history)'],
+    'assumptions': ['no module-level Meta subclass (the sanctioned global exception) and no debug mode (process-wide logging state) in the models',
+                    'default engine, int / str / nested-dataclass fields; Meta-heap model: no inheritance between user classes, settings '
+                    'key_transform_with_load/dump, raise_on_unknown_json_key, skip_defaults, recursive, recursive_classes'],
 }
 
 RELATIONS = ['disjoint', 'same_names', 'shared_nested', 'subclass']
@@ -214,6 +236,574 @@ def shared_object_pairs(r):
     return out
 
 
+
+# =========================================================================== second model (coq/model/FamModel.v)
+# Meta objects as identities (heap), recursive_classes, loader / dumper classes with overridden hooks,
+# every configuration entry point.  Runner: harness/impl/c07x.py (one pristine process per history).
+FAM_META_KEYS = ('ltr', 'dtr', 'raise', 'skipdef', 'rec', 'rc')
+FAM_TR = {'SNAKE': 'TrSnake', 'CAMEL': 'TrCamel', 'PASCAL': 'TrPascal', 'LISP': 'TrLisp', 'NONE': 'TrNone'}
+FAM_SPELL = {'my_val': ['myVal', 'MyVal', 'my-val', 'My_Val', 'MY_VAL', 'My-Val', 'myval'],
+             's_val': ['sVal', 'SVal', 's-val', 'S_Val', 'S_VAL'],
+             'amount': ['Amount', 'AMOUNT'], 'tag_s': ['tagS', 'TagS', 'tag-s', 'Tag_S'],
+             'n_item': ['nItem', 'NItem', 'n-item', 'N_Item'], 'm_item': ['mItem', 'MItem', 'm-item'],
+             'x': ['X'], 'total': ['Total', 'TOTAL']}
+
+
+def _qo(x):
+    return 'None' if x is None else '(Some %s)' % x
+
+
+def _qb(b):
+    return 'true' if b else 'false'
+
+
+def fam_q_meta(m):
+    m = m or {}
+    core = '(Build_meta %s %s %s %s %s)' % (
+        _qo(None if m.get('ltr') is None else FAM_TR[m['ltr']]), _qo(None if m.get('dtr') is None else FAM_TR[m['dtr']]),
+        _qo(None if m.get('raise') is None else _qb(m['raise'])), _qo(None if m.get('skipdef') is None else _qb(m['skipdef'])),
+        _qo(None if m.get('rec') is None else _qb(m['rec'])))
+    return '(Build_fmeta %s %s)' % (core, _qo(None if m.get('rc') is None else _qb(m['rc'])))
+
+
+def fam_q_hooks(h):
+    if h is None:
+        return 'None'
+    return '(Some (Build_hooks %s %s))' % (_qo(None if h.get('int') is None else '(%d)%%Z' % h['int']),
+                                           _qo(None if h.get('str') is None else base.coq_str(h['str'])))
+
+
+def fam_q_decl(decl, cid):
+    o = decl[cid]
+    fs = []
+    for name, ty, dflt in o['fields']:
+        t = 'TInt' if ty == 'int' else 'TStr' if ty == 'str' else '(TNested %s)' % fam_q_decl(decl, ty['nested'])
+        d = 'None' if dflt is None else '(Some (DInt (%d)%%Z))' % dflt if isinstance(dflt, int) else '(Some (DStr %s))' % base.coq_str(dflt)
+        fs.append('(%s, %s, %s)' % (base.coq_str(name), t, d))
+    kind = {'plain': 'KPlain', 'wiz': 'KWiz', 'pywiz': 'KPyWiz'}[o['kind']]
+    info = '(Build_finfo %d%%nat %d%%nat %s %s %s %s)' % (cid, o['qn'], kind, _qo(None if o.get('inner') is None else fam_q_meta(o['inner'])),
+                                                       fam_q_hooks(o.get('lmix')), fam_q_hooks(o.get('dmix')))
+    return '(FDecl %s %s)' % (info, base.coq_list(fs))
+
+
+def fam_q_history(h):
+    decl = {o['cid']: o for o in h if o['op'] == 'define'}
+    env = base.coq_list([fam_q_decl(decl, c) for c in decl])
+    ops = []
+    for o in h:
+        k = o['op']
+        if k == 'define':
+            ops.append('(FDefine %d%%nat)' % o['cid'])
+        elif k == 'bind':
+            ops.append('(FBind %d%%nat %s)' % (o['cid'], fam_q_meta(o['meta'])))
+        elif k == 'load':
+            ops.append('(FLoad %d%%nat %s)' % (o['cid'], base.q_doc(o['doc'])))
+        else:
+            ops.append('(FDump %s)' % base.q_val(o['inst']))
+    return 'show_frun %s %s' % (env, base.coq_list(ops))
+
+
+def fam_in_model(h):
+    """is the history inside the grammar of coq/model/FamModel.v ?"""
+    for o in h:
+        if o['op'] == 'define':
+            if o.get('key_case') is not None or o['kind'] not in ('plain', 'wiz', 'pywiz'):
+                return False
+            if any(not (ty in ('int', 'str') or (isinstance(ty, dict) and 'nested' in ty)) for _, ty, _ in o['fields']):
+                return False
+            if o.get('inner') and any(k not in FAM_META_KEYS for k, v in o['inner'].items() if v is not None):
+                return False
+        elif o['op'] == 'bind':
+            if any(k not in FAM_META_KEYS for k, v in o['meta'].items() if v is not None):
+                return False
+        elif o['op'] not in ('load', 'dump'):
+            return False
+    return True
+
+
+def fam_run_jobs(ctx, jobs, per_proc=25, workers=12):
+    payloads, idx = [], []
+    for k in range(0, len(jobs), per_proc):
+        chunk = jobs[k:k + per_proc]
+        payloads.append({'jobs': [{'salt': 'f%d' % (k + i), 'ops': [{kk: v for kk, v in o.items() if kk != 'tag'} for o in ops]}
+                                  for i, ops in enumerate(chunk)]})
+        idx.append((k, len(chunk)))
+    out = [None] * len(jobs)
+    with base.cf.ThreadPoolExecutor(max_workers=workers) as ex:
+        for (k, n), res in zip(idx, ex.map(lambda p: ctx.impl('c07x', p, timeout=900), payloads)):
+            for i in range(n):
+                out[k + i] = res['results'][i]
+    return out
+
+
+def fam_run_model(ctx, histories, tag):
+    res = ctx.coq([fam_q_history(h) for h in histories], ['PyStr', 'StrConv', 'StateModel', 'StateShow', 'FamModel', 'FamShow'], tag=tag)
+    out = []
+    for h, r in zip(histories, res):
+        qn_of = {o['cid']: o['qn'] for o in h if o['op'] == 'define'}
+        out.append([base.model_to_qn(p, qn_of) for p in (r.split(';') if h else [])])
+    return out
+
+
+def fam_op_class(o):
+    return o['inst']['c'] if o['op'] == 'dump' else o['cid']
+
+
+def fam_proj(h, G):
+    return [o for o in h if fam_op_class(o) in G]
+
+
+# ---- building blocks
+def fcls(cid, fields, kind='plain', inner=None, mod='a', qn=None, lmix=None, dmix=None, key_case=None):
+    return {'op': 'define', 'cid': cid, 'qn': cid if qn is None else qn, 'mod': mod, 'kind': kind, 'key_case': key_case,
+            'inner': inner, 'lmix': lmix, 'dmix': dmix, 'fields': fields}
+
+
+def fbind(cid, meta, via='load'):
+    return {'op': 'bind', 'cid': cid, 'via': via, 'meta': dict(meta)}
+
+
+class FamDocs:
+    """documents and instances for a set of declarations; every key spelling that is not the exact field name is
+    used at most ONCE per class in a history (the key caches of a class are outside FamModel.v)"""
+
+    def __init__(self, r, decl):
+        self.r, self.decl, self.used, self.n = r, decl, set(), 0
+
+    def key(self, cid, name, exact=False):
+        if not exact:
+            for sp in FAM_SPELL.get(name, []):
+                if (cid, sp) not in self.used and self.r.random() < 0.6:
+                    self.used.add((cid, sp))
+                    return sp
+        return name
+
+    def junk(self):
+        self.n += 1
+        return 'zz%d' % self.n
+
+    def doc(self, cid, exact=False, junk=True, strs=True):
+        r = self.r
+        d = {}
+        for name, ty, dflt in self.decl[cid]['fields']:
+            if dflt is not None and r.random() < 0.3:
+                continue
+            k = self.key(cid, name, exact)
+            if isinstance(ty, dict) and 'nested' in ty:
+                d[k] = self.doc(ty['nested'], exact, junk, strs)
+            elif isinstance(ty, dict) and 'list' in ty:
+                d[k] = [self.doc(ty['list'], exact, junk, strs)]
+            elif ty == 'self':
+                if r.random() < 0.5:
+                    d[k] = {kk: v for kk, v in self.doc(cid, exact, junk, strs).items()}
+            elif ty == 'int':
+                d[k] = r.choice([r.randrange(0, 9), str(r.randrange(1, 60))]) if strs else r.randrange(0, 9)
+            else:
+                d[k] = r.choice(['ab', 'q', 'v7'])
+        if junk:
+            d[self.junk()] = 1
+        if r.random() < 0.3:
+            items = list(d.items())
+            r.shuffle(items)
+            d = dict(items)
+        return d
+
+    def inst(self, cid):
+        r = self.r
+        fs = []
+        for name, ty, dflt in self.decl[cid]['fields']:
+            if isinstance(ty, dict) and 'nested' in ty:
+                fs.append([name, self.inst(ty['nested'])])
+            elif isinstance(ty, dict) and 'list' in ty:
+                fs.append([name, {'l': [self.inst(ty['list'])]}])
+            elif ty == 'self':
+                fs.append([name, None])
+            elif ty == 'int':
+                fs.append([name, {'i': dflt if (dflt is not None and r.random() < 0.6) else r.randrange(2, 40)}])
+            else:
+                fs.append([name, {'s': dflt if (dflt is not None and r.random() < 0.6) else r.choice(['ab', 'v7'])}])
+        return {'c': cid, 'f': fs}
+
+    def use(self, cid, kinds=('load', 'dump')):
+        out = []
+        for k in kinds:
+            if k == 'load':
+                out.append({'op': 'load', 'cid': cid, 'attr': False, 'doc': self.doc(cid)})
+            else:
+                out.append({'op': 'dump', 'attr': False, 'inst': self.inst(cid)})
+        return out
+
+
+N_FIELDS = [['my_val', 'int', None], ['s_val', 'str', 'q'], ['x', 'int', 0]]
+
+
+def root_fields(n, own='amount', extra=None):
+    return [['n_item', {'nested': n}, None]] + (extra or []) + [[own, 'int', 0], ['tag_s', 'str', 't']]
+
+
+# every Meta setting that is compiled into a generated (nested) load / dump function or written to the loader / dumper class
+FAM_SETTINGS = [{'raise': True}, {'ltr': 'NONE'}, {'ltr': 'PASCAL'}, {'skipdef': True}, {'dtr': 'SNAKE'}, {'dtr': 'PASCAL'},
+                {'raise': True, 'skipdef': True}, {'ltr': 'CAMEL', 'raise': True}, {'dtr': 'LISP', 'skipdef': True}]
+
+
+def fam_lattice(r, ext=False):
+    """shared nested class N x {every compiled setting on F} x recursive_classes on/off for F and for G x order
+    (F first / G first / N alone first) x how F is configured (LoadMeta / DumpMeta / inner Meta / JSONPyWizard + inner).
+    G = {N, root 3}; F = {root 2}.  ext: the roots are self-referential (Optional['Self']) and hold a list of N as well."""
+    out = []
+    for setting in FAM_SETTINGS:
+        for rcF in (True, None):
+            for rcG in (True, None):
+                for order in 'FGN':
+                    styles = ['load', 'dump', 'inner', 'pywiz']
+                    style = styles[len(out) % 4] if not ext else r.choice(styles[:3])
+                    fm = dict(setting)
+                    if rcF:
+                        fm['rc'] = True
+                    if ext and not (rcF and rcG):
+                        continue
+                    extra = [['items', {'list': 1}, None], ['kid', 'self', None]] if ext else None
+                    if ext:
+                        fm = {k: v for k, v in fm.items() if k not in ('ltr', 'dtr')}     # no key transform: nothing may leak at all
+                        if len(fm) < 2:
+                            continue
+                    nmeta = r.choice([None, None, {'raise': False}, {'skipdef': False}, {'rc': True}])
+                    h = [fcls(1, N_FIELDS, mod='b')]
+                    if style in ('inner', 'pywiz'):
+                        h.append(fcls(2, root_fields(1, extra=extra), kind='wiz' if style == 'inner' else 'pywiz', inner=fm, mod='a'))
+                    else:
+                        h.append(fcls(2, root_fields(1, extra=extra), kind=r.choice(['plain', 'wiz']), mod='a'))
+                    h.append(fcls(3, root_fields(1, own='total', extra=extra), mod='b'))
+                    if style in ('load', 'dump'):
+                        h.append(fbind(2, fm, style))
+                    if rcG:
+                        h.append(fbind(3, {'rc': True}, 'load'))
+                    if nmeta:
+                        h.append(fbind(1, nmeta, 'load'))
+                    docs = FamDocs(r, {o['cid']: o for o in h if o['op'] == 'define'})
+                    uf = docs.use(2) + (docs.use(2, ('load',)) if r.random() < 0.4 else [])
+                    ug, un = docs.use(3), docs.use(1)
+                    r.shuffle(uf)
+                    r.shuffle(ug)
+                    h += {'F': uf + ug + un, 'G': ug + uf + docs.use(3) + un, 'N': un + uf + ug}[order]
+                    out.append((h, {1, 3}, 'lattice%s/%s/rcF=%s/rcG=%s/%s' % ('_x' if ext else '', style, rcF, rcG, order)))
+    return out
+
+
+FAM_EQ_SETTINGS = [{'raise': True}, {'ltr': 'PASCAL'}, {'dtr': 'SNAKE'}, {'skipdef': True}, {'rc': True}, {'rec': False},
+                   {'raise': True, 'dtr': 'LISP'}]
+FAM_SECONDS = [{'skipdef': True}, {'raise': True}, {'dtr': 'LISP'}, {'ltr': 'NONE'}, {'raise': False, 'skipdef': False}]
+
+
+def fam_equal_kwargs(r, quick):
+    """two UNRELATED classes configured by EQUAL settings through every configuration entry point (LoadMeta, DumpMeta,
+    inner Meta, JSONPyWizard + inner Meta, JSONWizard key_case=), then a second binding (LoadMeta / DumpMeta) to F only;
+    three orders.  G = {2} (and its nested class 4 when it has one)."""
+    combos = []
+    for entry in ('load', 'dump', 'inner', 'pywiz', 'key_case'):
+        for s in FAM_EQ_SETTINGS:
+            for s2 in FAM_SECONDS:
+                for via2 in ('load', 'dump'):
+                    for order in ('FG', 'GF', 'F2G'):
+                        combos.append((entry, s, s2, via2, order))
+    if quick:
+        # every (entry, setting) and every (entry, second, via, order) at least once, the rest sampled
+        keep, seen1, seen2 = [], set(), set()
+        r.shuffle(combos)
+        for c in combos:
+            k1, k2 = (c[0], json.dumps(c[1])), (c[0], json.dumps(c[2]), c[3], c[4])
+            if k1 not in seen1 or k2 not in seen2:
+                keep.append(c)
+                seen1.add(k1)
+                seen2.add(k2)
+        combos = keep
+    out = []
+    for entry, s, s2, via2, order in combos:
+        nested = r.random() < 0.4
+        ff = ([['n_item', {'nested': 3}, None]] if nested else []) + N_FIELDS + [['amount', 'int', 0]]
+        gf = ([['n_item', {'nested': 4}, None]] if nested else []) + N_FIELDS + [['amount', 'int', 0]]
+        kind = {'load': r.choice(['plain', 'wiz']), 'dump': r.choice(['plain', 'wiz']), 'inner': 'wiz', 'pywiz': 'pywiz', 'key_case': 'wiz'}[entry]
+        kw = {}
+        if entry in ('inner', 'pywiz'):
+            kw['inner'] = dict(s)
+        if entry == 'key_case':
+            kw['key_case'] = 'CAMEL'
+        pre = [fcls(3, N_FIELDS, mod='a'), fcls(4, N_FIELDS, mod='b')] if nested else []
+        F, Gc = fcls(1, ff, kind=kind, mod='a', **kw), fcls(2, gf, kind=kind, mod='b', **kw)
+        bF = [fbind(1, s, entry)] if entry in ('load', 'dump') else []
+        bG = [fbind(2, s, entry)] if entry in ('load', 'dump') else []
+        b2 = [fbind(1, s2, via2)]
+        h0 = pre + [F, Gc]
+        docs = FamDocs(r, {o['cid']: o for o in h0})
+        useF, useG = docs.use(1), docs.use(2)
+        if order == 'FG':
+            h = pre + [F, Gc] + bF + bG + b2 + useF + useG
+        elif order == 'GF':
+            h = pre + [Gc, F] + bG + bF + b2 + useF + useG
+        else:
+            h = pre[:1] + [F] + bF + b2 + useF + pre[1:] + [Gc] + bG + useG
+        out.append((h, {2, 4} if nested else {2}, 'equal/%s/%s' % (entry, order)))
+    return out
+
+
+def fam_hook_pairs(r, ext=False):
+    """F is a dataclass that subclasses LoadMixin / DumpMixin and overrides load_to_* / dump_with_* hooks; it nests N,
+    which G nests too (and which is used on its own); orders F / G / N first; F optionally has a Meta.
+    ext: F also holds list[N]; hooks are also REGISTERED (register_load_hook / register_dump_hook) on F."""
+    out = []
+    mixes = [({'int': 100}, None), (None, {'int': 7}), ({'int': 3, 'str': 'p'}, {'int': 5, 'str': 'z'}), ({'str': 'L'}, {'str': 'D'})]
+    for lmix, dmix in mixes:
+        for kind in ('plain', 'wiz'):
+            for order in 'FGN':
+                for fmeta in (None, {'raise': True}, {'rc': True}, {'rc': True, 'skipdef': True}):
+                    if ext and fmeta and r.random() < 0.5:
+                        continue
+                    extra = [['items', {'list': 1}, None]] if ext else None
+                    h = [fcls(1, N_FIELDS, mod='b'), fcls(2, root_fields(1, extra=extra), kind=kind, lmix=lmix, dmix=dmix, mod='a'),
+                         fcls(3, root_fields(1, own='total', extra=extra), mod='b')]
+                    if fmeta:
+                        h.append(fbind(2, fmeta, r.choice(['load', 'dump'])))
+                    if ext:
+                        if lmix:
+                            h.append({'op': 'reghook', 'cid': 2, 'side': 'load', 'ty': 'int', 'k': 11})
+                        if dmix:
+                            h.append({'op': 'reghook', 'cid': 2, 'side': 'dump', 'ty': 'str', 'k': 'R'})
+                    docs = FamDocs(r, {o['cid']: o for o in h if o['op'] == 'define'})
+                    uf, ug, un = docs.use(2), docs.use(3), docs.use(1)
+                    h += {'F': uf + ug + un, 'G': ug + uf + docs.use(3) + un, 'N': un + uf + ug}[order]
+                    out.append((h, {1, 3}, 'hooks%s/%s/%s' % ('_x' if ext else '', kind, order)))
+    return out
+
+
+def fam_gen_meta(r):
+    m = {}
+    if r.random() < 0.4:
+        m['dtr'] = r.choice(['SNAKE', 'PASCAL', 'LISP', 'NONE', 'CAMEL'])
+    if r.random() < 0.35:
+        m['ltr'] = r.choice(['SNAKE', 'PASCAL', 'LISP', 'NONE', 'CAMEL'])
+    if r.random() < 0.4:
+        m['raise'] = r.random() < 0.8
+    if r.random() < 0.35:
+        m['skipdef'] = r.random() < 0.8
+    if r.random() < 0.12:
+        m['rec'] = r.random() < 0.6
+    if r.random() < 0.45:
+        m['rc'] = r.random() < 0.85
+    if not m:
+        m['rc'] = True
+    return m
+
+
+def fam_random_pair(r):
+    """random family pair in the grammar of FamModel.v: 1-2 roots and 0-2 nested leaves per family, a nested class shared
+    between the families half of the time; every entry point; bindings at ANY time (also after first use) and REPEATED."""
+    shared = r.random() < 0.5
+    decl, h, F, G = {}, [], set(), set()
+    nxt = [1]
+
+    def add(fam, fields, **kw):
+        c = nxt[0]
+        nxt[0] += 1
+        o = fcls(c, fields, mod='a' if fam is F else 'b', **kw)
+        decl[c] = o
+        fam.add(c)
+        return c
+
+    def leaf(fam):
+        kind = r.choice(['plain', 'plain', 'wiz', 'pywiz'])
+        return add(fam, N_FIELDS, kind=kind, inner=fam_gen_meta(r) if (kind != 'plain' and r.random() < 0.4) else None,
+                   lmix=r.choice([None, None, None, {'int': 10}]), dmix=r.choice([None, None, None, {'int': 1}]))
+
+    def root(fam, nested):
+        kind = r.choice(['plain', 'wiz', 'wiz', 'pywiz'])
+        fields = [['n_item', {'nested': nested[0]}, None]] + ([['m_item', {'nested': nested[1]}, None]] if len(nested) > 1 else []) + \
+                 [[r.choice(['amount', 'total']), 'int', 0], ['tag_s', 'str', 't']]
+        return add(fam, fields, kind=kind, inner=fam_gen_meta(r) if (kind != 'plain' and r.random() < 0.5) else None,
+                   lmix=r.choice([None, None, None, {'int': 100}, {'int': 2, 'str': 'p'}]), dmix=r.choice([None, None, None, {'int': 7}, {'str': 'z'}]))
+    n_sh = leaf(G) if shared else None
+    roots = {}
+    for fam in (F, G):
+        own = [leaf(fam) for _ in range(r.choice([0, 1, 1]) if (shared or fam is G) else r.choice([1, 1, 2]))]
+        roots[id(fam)] = []
+        for _ in range(r.choice([1, 1, 2])):
+            pool = own + ([n_sh] if shared else [])
+            if not pool:
+                pool = [leaf(fam)]
+                own.extend(pool)
+            nested = r.sample(pool, min(len(pool), r.choice([1, 1, 2])))
+            roots[id(fam)].append(root(fam, nested))
+    order = sorted(decl)
+    defs = [decl[c] for c in order]
+    docs = FamDocs(r, decl)
+    # definitions in id order (nested before roots), then an interleaving of bindings and uses
+    h = list(defs)
+    events = []
+    for fam, w in ((F, 0.7), (G, 0.4)):
+        for c in sorted(fam):
+            for _ in range(r.choice([0, 1, 1, 2, 3]) if r.random() < w else 0):
+                events.append(('bind', c))
+    n_use = r.choice([3, 4, 5, 6, 8])
+    for k in range(n_use):
+        fam = F if r.random() < (0.7 if k < n_use // 2 else 0.3) else G
+        events.append(('use', r.choice(sorted(fam))))
+    # bindings mostly first, some anywhere
+    binds = [e for e in events if e[0] == 'bind']
+    uses = [e for e in events if e[0] == 'use']
+    r.shuffle(binds)
+    seq = binds[:]
+    for u in uses:
+        seq.append(u)
+    late = [b for b in binds if r.random() < 0.3]
+    for b in late:
+        seq.remove(b)
+        seq.insert(r.randrange(len(binds) - len(late), len(seq) + 1), b)
+    for kind, c in seq:
+        if kind == 'bind':
+            h.append(fbind(c, fam_gen_meta(r), r.choice(['load', 'dump'])))
+        else:
+            h.extend(docs.use(c, (r.choice(['load', 'dump']),)))
+    if not any(o['op'] in ('load', 'dump') and fam_op_class(o) in G for o in h):
+        h.extend(docs.use(r.choice(sorted(G))))
+    return h, G, 'random/%s' % ('shared' if shared else 'disjoint')
+
+
+def fam_witnesses():
+    """the concrete programs of coq/proofs/FamWitness.v (frame example and refutation witnesses) as harness histories"""
+    def ninst(c, v):
+        return {'c': c, 'f': [['my_val', {'i': v}], ['s_val', {'s': 'q'}], ['x', {'i': 0}]]}
+
+    def rinst(c, n, a, tag):
+        return {'c': c, 'f': [['n_item', n], ['amount', {'i': a}], ['tag_s', {'s': tag}]]}
+
+    def ld(c, doc):
+        return {'op': 'load', 'cid': c, 'attr': False, 'doc': doc}
+
+    def dp(v):
+        return {'op': 'dump', 'attr': False, 'inst': v}
+    rf = lambda n: [['n_item', {'nested': n}, None], ['amount', 'int', 0], ['tag_s', 'str', 't']]  # noqa
+    ex = [fcls(1, N_FIELDS), fcls(2, rf(1), kind='wiz', inner={'ltr': 'SNAKE', 'raise': True, 'rc': True}, lmix={'int': 100}),
+          fcls(3, N_FIELDS, mod='b'), fcls(4, rf(3), kind='pywiz', inner={'skipdef': True}, dmix={'str': 'z'}, mod='b'),
+          fbind(2, {'dtr': 'LISP'}, 'dump'),
+          ld(2, {'nItem': {'myVal': 2}, 'Amount': '3'}),
+          fbind(4, {'rc': True}),
+          ld(4, {'n_item': {'myVal': 5, 'zz1': 1}, 'amount': 7}),
+          fbind(2, {'raise': False}),
+          dp(rinst(4, ninst(3, 9), 0, 'u')),
+          ld(3, {'my_val': '4', 'zz2': 1}),
+          fbind(4, {'dtr': 'SNAKE'}, 'dump'),
+          dp(rinst(4, ninst(3, 9), 2, 't')),
+          ld(2, {'NItem': {'MyVal': 2, 'zz3': 0}}),
+          dp(rinst(2, ninst(1, 1), 5, 't'))]
+    memo = [fcls(1, N_FIELDS), fcls(2, N_FIELDS, mod='b'), fbind(1, {'raise': True}), fbind(2, {'raise': True}),
+            fbind(1, {'skipdef': True}), dp(ninst(2, 5))]
+    qn = [fcls(1, N_FIELDS, kind='wiz', qn=7, inner={'dtr': 'PASCAL', 'raise': True}), fcls(2, N_FIELDS, kind='wiz', qn=7, mod='b'),
+          fbind(1, {'skipdef': True}), dp(ninst(2, 5)), ld(2, {'my_val': 1, 'zz': 2})]
+    rc = [fcls(1, N_FIELDS, mod='b'), fcls(2, rf(1)), fcls(3, rf(1), mod='b'), fbind(2, {'ltr': 'NONE', 'rc': True}), fbind(3, {'rc': True}),
+          ld(2, {'n_item': {'my_val': 1}}), ld(3, {'n_item': {'myVal': 2}})]
+    return [(ex, {3, 4}, 'witness/frame_example'), (memo, {2}, 'witness/equal_settings'),
+            (qn, {2}, 'witness/same_qualname'), (rc, {1, 3}, 'witness/shared_nested_rc')]
+
+
+def fam_shares_qualname(h, G):
+    """two JSONWizard classes with the same qualname on different sides of the border (open region F11)"""
+    wiz = [o for o in h if o['op'] == 'define' and o['kind'] != 'plain']
+    return any(a['qn'] == b['qn'] and (a['cid'] in G) != (b['cid'] in G) for a in wiz for b in wiz)
+
+
+def fam_shares_class(h, G):
+    """some class is nested on BOTH sides of the border (the open region F10 needs one)"""
+    decl = {o['cid']: o for o in h if o['op'] == 'define'}
+    for c, o in decl.items():
+        for _, ty, _ in o['fields']:
+            if isinstance(ty, dict):
+                n = ty.get('nested', ty.get('list'))
+                if (n in G) != (c in G):
+                    return True
+    return False
+
+
+def fam_g_failures(h, G, impl, alone):
+    idx = [i for i, o in enumerate(h) if fam_op_class(o) in G]
+    return [(i, j) for j, i in enumerate(idx) if impl[i] != alone[j]]
+
+
+def fam_shrink(ctx, h, G, i, budget=24):
+    """drop operations of the other family while G's operation i keeps differing from the projected run"""
+    target = h[i]
+    cur = h[:i + 1]
+
+    def fails(hh):
+        a, b = fam_run_jobs(ctx, [hh, fam_proj(hh, G)], per_proc=1, workers=2)
+        ii = max(k for k, o in enumerate(hh) if o is target)
+        jj = sum(1 for o in hh[:ii] if fam_op_class(o) in G)
+        return a[ii] != b[jj]
+    changed = True
+    while changed and budget > 0:
+        changed = False
+        for k in range(len(cur) - 2, -1, -1):
+            o = cur[k]
+            if o['op'] == 'define':
+                continue
+            cand = cur[:k] + cur[k + 1:]
+            budget -= 1
+            if budget < 0:
+                break
+            try:
+                if fails(cand):
+                    cur, changed = cand, True
+                    break
+            except Exception:  # noqa
+                pass
+    return cur
+
+
+def fam_check(ctx, pairs, label):
+    """pairs: (history, G, tag).  Direct predicate: G's outcomes == outcomes of the projected history run in a pristine
+    process of its own.  Correspondence: FamModel.frun_out on every history inside the model's grammar."""
+    jobs = [h for h, _, _ in pairs] + [fam_proj(h, G) for h, G, _ in pairs]
+    res = fam_run_jobs(ctx, jobs)
+    n = len(pairs)
+    in_model = [fam_in_model(h) for h, _, _ in pairs]
+    mod = {}
+    try:
+        mh = [k for k in range(n) if in_model[k]]
+        for k, m in zip(mh, fam_run_model(ctx, [pairs[k][0] for k in mh], tag=label)):
+            mod[k] = m
+    except Exception as e:  # noqa
+        ctx.broken_tie('%s: model evaluation failed: %s' % (label, str(e)[:600]))
+    for k, (h, G, tag) in enumerate(pairs):
+        impl, alone, m = res[k], res[n + k], mod.get(k)
+        ctx.count(1, key='fam:' + json.dumps([h, sorted(G)], sort_keys=True), nontrivial=True)
+        ctx.hist('fam_pairs', tag.split('/')[0])
+        if m is not None:
+            ctx.traces_validated += 1
+            if m != impl:
+                ctx.disagreements_checked += 1
+                j = next((i for i in range(min(len(m), len(impl))) if m[i] != impl[i]), None)
+                ctx.broken_tie('%s [%s]: Meta-heap model and implementation disagree at operation %s: model %s, implementation %s'
+                               % (label, tag, j, None if j is None else m[j], None if j is None else impl[j]),
+                               {'history': h, 'model': m, 'impl': impl})
+        bad = fam_g_failures(h, G, impl, alone)
+        ctx.hist('fam_g_outcome_changed', '%s/%s' % (tag.split('/')[0], 'yes' if bad else 'no'))
+        for i, j in bad:
+            # the open regions here are F10 (key transforms written to the loader / dumper class and the key table of a nested
+            # class that BOTH families use) and F11 (same qualname), and only with the outcome the faithful model predicts
+            as_model = m is not None and i < len(m) and m[i] == impl[i]
+            known = [f for f, inside in (('F10', fam_shares_class(h, G)), ('F11', fam_shares_qualname(h, G)))
+                     if inside and as_model and ctx.is_open_region(base.OPEN[f])]
+            if known:
+                for f in known:
+                    ctx.hist('known_region', base.OPEN[f])
+                continue
+            ctx._fam_shrunk = getattr(ctx, '_fam_shrunk', 0) + 1
+            small = fam_shrink(ctx, h, G, i) if ctx._fam_shrunk <= 3 else h[:i + 1]
+            ctx.violation('%s [%s]: operation %d (%s on class %s of family G) gives %s when the other family was defined / configured / used, '
+                          'but %s in a pristine process%s' % (label, tag, i, h[i]['op'], fam_op_class(h[i]), impl[i], alone[j],
+                                                               '' if m is None or i >= len(m) else '; today\'s behaviour (Meta-heap model): %s' % m[i]),
+                          {'kind': 'fam_pair', 'history': small, 'G': sorted(G), 'full_history': h, 'index': i})
+    return res
+
+
 def proj(h, G):
     return [o for o in h if base.op_class(o) in G]
 
@@ -373,6 +963,15 @@ def run(ctx):
         ctx.hist('g_outcome_changed', '%s/%s' % (rel, 'yes' if bad else 'no'))
     ctx.sample({'relation': rels[0], 'history': pairs[0][0], 'G': sorted(pairs[0][1]), 'impl': infos[0]['impl'], 'alone': infos[0]['alone']})
     ctx.sample({'relation': rels[1], 'history': pairs[1][0], 'G': sorted(pairs[1][1]), 'impl': infos[1]['impl'], 'alone': infos[1]['alone']})
+    # ---- second model (FamModel.v): Meta objects as identities, recursive_classes, hook classes, every entry point
+    rf = ctx.sub_rng('fam')
+    fam = fam_lattice(rf) + fam_lattice(rf, ext=True) + fam_equal_kwargs(rf, quick) + fam_hook_pairs(rf) + fam_hook_pairs(rf, ext=True)
+    for h, G, tag in fam_witnesses():
+        fam.append((h, G, tag))
+    for _ in range(260 if quick else 4000):
+        fam.append(fam_random_pair(rf))
+    fres = fam_check(ctx, fam, 'C07fam')
+    ctx.sample({'meta_heap_model': True, 'tag': fam[0][2], 'history': fam[0][0], 'G': sorted(fam[0][1]), 'impl': fres[0]})
     # extended grammar (direct predicate only): Meta settings outside the Coq model (recursive=False roots combined
     # with auto_assign_tags / tag_key / marshal_date_time_as / skip_if / json_key_to_field), F and G configured from the
     # SAME Python objects (one mapping dict, one Condition), datetime / Any / bool fields, failing dumps
@@ -398,6 +997,13 @@ def run(ctx):
 
 
 def replay(ctx, obj):
+    if obj.get('kind') == 'fam_pair':
+        h, G = obj['history'], set(obj['G'])
+        a, b = fam_run_jobs(ctx, [h, fam_proj(h, G)], per_proc=1, workers=2)
+        idx = [i for i, o in enumerate(h) if fam_op_class(o) in G]
+        for j, i in enumerate(idx):
+            print('op %d %s: with the other family %s | in a pristine process %s%s' % (i, h[i]['op'], a[i], b[j], '' if a[i] == b[j] else '   <-- differs'))
+        return not fam_g_failures(h, G, a, b)
     if obj.get('kind') == 'pair':
         h, G = obj['history'], set(obj['G'])
         a, b = replay_pair(ctx, h, G)
